@@ -2,7 +2,9 @@
 //!
 //! Sim: every event is one probe statement (read or write; leading clause MATCH / OPTIONAL
 //! MATCH / UNWIND / WITH / CALL / CREATE / MERGE / RETURN / DDL; keyword case; separators
-//! space, tab, newline, CRLF, block and line comments; leading/trailing trivia).  For each
+//! space, tab, newline, CRLF, block and line comments; leading/trailing trivia; clause
+//! pipelines `<reads> <write> WITH .. <read tail | write [WITH .. read tail]>`; an optional
+//! EXPLAIN / PROFILE prefix on every shape).  For each
 //! probe three fresh twins are built from the same setup history and the statement is sent
 //! (1) to the RESP command handler (`GRAPH.QUERY`), (2) to the shipped axum router
 //! (`POST /api/query`), (3) to the embedded engine: parse, plan, and the plan's `is_write`
@@ -40,16 +42,39 @@ const SETUP: &[&str] = &[
     "MATCH (a:P {k: 2}), (q:Q {k: 1}) CREATE (a)-[:T {w: 2}]->(q)",
 ];
 
-/// Statements whose first clause writes: (class, clauses).
-const LEADING_WRITES: &[(&str, &[&str])] = &[
-    ("create", &["CREATE (n:Q {k: 9})"]),
-    ("create", &["CREATE (n:Q {k: 9})", "SET n.z = 1"]),
-    ("create", &["CREATE (n:Q {k: 9})", "WITH n", "MATCH (m:P {k: 1})", "CREATE (n)-[:T]->(m)"]),
-    ("create", &["CREATE (n:Q {k: 9})-[:T]->(m:Q {k: 10})"]),
-    ("merge", &["MERGE (n:Q {k: 9})"]),
-    ("merge", &["MERGE (n:Q {k: 1})", "ON MATCH SET n.z = 2"]),
-    ("merge", &["MERGE (n:Q {k: 9})", "ON CREATE SET n.z = 1"]),
+/// Statements whose first clause writes (or that lead into the write with UNWIND only):
+/// (lead class, write class, clauses).  Every entry binds `n`.
+const LEADING_WRITES: &[(&str, &str, &[&str])] = &[
+    ("create", "create", &["CREATE (n:Q {k: 9})"]),
+    ("create", "create", &["CREATE (n:Q {k: 9})", "SET n.z = 1"]),
+    ("create", "create", &["CREATE (n:Q {k: 9})", "WITH n", "MATCH (m:P {k: 1})", "CREATE (n)-[:T]->(m)"]),
+    ("create", "create", &["CREATE (n:Q {k: 9})-[:T]->(m:Q {k: 10})"]),
+    ("merge", "merge", &["MERGE (n:Q {k: 9})"]),
+    ("merge", "merge", &["MERGE (n:Q {k: 1})", "ON MATCH SET n.z = 2"]),
+    ("merge", "merge", &["MERGE (n:Q {k: 9})", "ON CREATE SET n.z = 1"]),
+    ("unwind", "create", &["UNWIND [1, 2] AS x", "CREATE (n:Q {k: x})"]),
+    ("unwind", "merge", &["UNWIND [1, 2] AS x", "MERGE (n:Q {k: x})"]),
 ];
+
+/// Clause pipelines (a write clause followed by WITH): the WITH that follows the write ...
+const WITHS_N: &[&str] = &["WITH n", "WITH n", "WITH n, 1 AS one", "WITH DISTINCT n", "WITH n WHERE n.k >= 0", "WITH n AS n, 1 AS one"];
+const WITHS_ANY: &[&str] = &["WITH 1 AS one", "WITH 1 AS one, 2 AS two"];
+/// ... and the read-only tails after it (`n` carried over / only `one` carried over).
+const PIPE_TAILS_N: &[&[&str]] = &[
+    &["RETURN n.k AS k"],
+    &["RETURN n"],
+    &["RETURN count(*) AS c"],
+    &["RETURN n.z AS z"],
+    &["RETURN n.k AS k ORDER BY k LIMIT 2"],
+    &["MATCH (n)-[:T]->(m)", "RETURN m.k AS k"],
+    &["OPTIONAL MATCH (n)-[:T]->(m)", "RETURN n.k AS a, m.k AS b"],
+    &["UNWIND [1, 2] AS x", "RETURN n.k AS k, x"],
+    &["MATCH (m:Q)", "RETURN count(*) AS c"],
+];
+const PIPE_TAILS_ANY: &[&[&str]] = &[&["RETURN one"], &["RETURN count(*) AS c"], &["MATCH (m:P)", "RETURN m.k AS k"]];
+
+/// Diagnostic prefixes: none, EXPLAIN (describe only), PROFILE (execute and report).
+const DIAG: &[&str] = &["", "EXPLAIN", "PROFILE"];
 
 /// Whole statements of special interest: (lead class, write class, text).
 const SPECIAL: &[(&str, &str, &str)] = &[
@@ -74,17 +99,74 @@ const LEAD_TRIVIA: &[&str] = &["", "", "", " ", "\n", "\t", "  \n  ", "// find t
 const TAIL_TRIVIA: &[&str] = &["", "", "", ";", " ", "\n", " ;\n", " // done"];
 const RETURNS: &[&str] = &["", "RETURN count(*) AS c", "RETURN 1 AS one", "RETURN n", "RETURN n.k AS k"];
 
+/// A data-write clause (no DDL, no procedure) usable where `n` is bound or not.
+fn pick_data_write(r: &mut Rng, binds_n: bool) -> usize {
+    let mut wi = r.usize_below(WRITES.len());
+    for _ in 0..8 {
+        let c = WRITES[wi].0;
+        if c != "ddl" && c != "procedure" && (!WRITES[wi].2 || binds_n) {
+            return wi;
+        }
+        wi = r.usize_below(WRITES.len());
+    }
+    9 // CREATE (:Q {k: 7})
+}
+
+/// Continue a statement whose last clause is a write (class `w1`) as a clause pipeline:
+/// `WITH ..` + a read tail (every write sits before the last WITH), or + a second write
+/// [+ RETURN] (writes on both sides), or + a second write + `WITH ..` + a read tail.
+/// Returns the write class of the whole statement.
+fn push_pipeline_tail(r: &mut Rng, clauses: &mut Vec<String>, w1: &str, binds_n: bool) -> String {
+    fn push_with(r: &mut Rng, clauses: &mut Vec<String>, carry_n: bool) {
+        let w = if carry_n { WITHS_N[r.usize_below(WITHS_N.len())] } else { WITHS_ANY[r.usize_below(WITHS_ANY.len())] };
+        clauses.push(w.to_string());
+    }
+    fn push_read_tail(r: &mut Rng, clauses: &mut Vec<String>, carry_n: bool) {
+        let t = if carry_n { PIPE_TAILS_N[r.usize_below(PIPE_TAILS_N.len())] } else { PIPE_TAILS_ANY[r.usize_below(PIPE_TAILS_ANY.len())] };
+        clauses.extend(t.iter().map(|c| c.to_string()));
+    }
+    // sometimes the projection drops `n` although it is bound
+    let carry_n = binds_n && !r.chance(1, 6);
+    push_with(r, clauses, carry_n);
+    match r.weighted(&[5, 3, 2]) {
+        0 => {
+            push_read_tail(r, clauses, carry_n);
+            format!("{w1}_with_read")
+        }
+        k => {
+            let wi = pick_data_write(r, carry_n);
+            clauses.push(WRITES[wi].1.to_string());
+            if k == 1 {
+                let mut ret = RETURNS[r.usize_below(RETURNS.len())];
+                if !carry_n && (ret == "RETURN n" || ret.starts_with("RETURN n.k")) {
+                    ret = "RETURN 1 AS one";
+                }
+                if !ret.is_empty() {
+                    clauses.push(ret.to_string());
+                }
+                format!("{w1}_with_{}", WRITES[wi].0)
+            } else {
+                push_with(r, clauses, carry_n);
+                push_read_tail(r, clauses, carry_n);
+                format!("{w1}_with_{}_with_read", WRITES[wi].0)
+            }
+        }
+    }
+}
+
 fn gen_probe(r: &mut Rng) -> Value {
     let sep = r.weighted(&[8, 5, 2, 1, 1, 1, 1]) as u64;
     let case_mode = r.weighted(&[5, 4, 1, 1]) as u64;
     let lead = r.below(LEAD_TRIVIA.len() as u64);
     let tail = r.below(TAIL_TRIVIA.len() as u64);
-    let (lclass, wclass, clauses): (String, String, Vec<String>) = match r.weighted(&[12, 2, 3, 3]) {
+    let mut diag = r.weighted(&[7, 1, 2]) as u64;
+    let (lclass, wclass, clauses): (String, String, Vec<String>) = match r.weighted(&[12, 2, 4, 3]) {
         0 => {
             let pi = r.usize_below(PREFIXES.len());
             let (pclass, pclauses, binds_n) = PREFIXES[pi];
             let mut clauses: Vec<String> = pclauses.iter().map(|s| s.to_string()).collect();
-            let mut wclass = "read";
+            let mut wclass = "read".to_string();
+            let mut w1 = "read";
             if r.chance(3, 4) {
                 let mut wi = r.usize_below(WRITES.len());
                 for _ in 0..6 {
@@ -98,14 +180,19 @@ fn gen_probe(r: &mut Rng) -> Value {
                 if WRITES[wi].0 == "procedure" || (WRITES[wi].2 && !binds_n) {
                     wi = 9; // CREATE (:Q {k: 7})
                 }
-                wclass = WRITES[wi].0;
+                w1 = WRITES[wi].0;
+                wclass = w1.to_string();
                 clauses.push(WRITES[wi].1.to_string());
-                let mut ret = RETURNS[r.usize_below(RETURNS.len())];
-                if ret.contains('n') && ret != "RETURN count(*) AS c" && ret != "RETURN 1 AS one" && !binds_n {
-                    ret = "RETURN 1 AS one";
-                }
-                if !ret.is_empty() {
-                    clauses.push(ret.to_string());
+                if w1 != "ddl" && r.chance(2, 5) {
+                    wclass = push_pipeline_tail(r, &mut clauses, w1, binds_n);
+                } else {
+                    let mut ret = RETURNS[r.usize_below(RETURNS.len())];
+                    if ret.contains('n') && ret != "RETURN count(*) AS c" && ret != "RETURN 1 AS one" && !binds_n {
+                        ret = "RETURN 1 AS one";
+                    }
+                    if !ret.is_empty() {
+                        clauses.push(ret.to_string());
+                    }
                 }
             } else {
                 let mut t = READ_TAILS[r.usize_below(READ_TAILS.len())];
@@ -116,8 +203,8 @@ fn gen_probe(r: &mut Rng) -> Value {
                 }
                 clauses.push(t.to_string());
             }
-            let lclass = if pclass == "none" { if wclass == "read" { "match" } else { wclass } } else { pclass };
-            (lclass.to_string(), wclass.to_string(), clauses)
+            let lclass = if pclass == "none" { if w1 == "read" { "match" } else { w1 } } else { pclass };
+            (lclass.to_string(), wclass, clauses)
         }
         1 => {
             // DDL on its own
@@ -126,27 +213,43 @@ fn gen_probe(r: &mut Rng) -> Value {
             ("ddl".to_string(), "ddl".to_string(), vec![d.1.to_string()])
         }
         2 => {
-            let (c, clauses) = LEADING_WRITES[r.usize_below(LEADING_WRITES.len())];
+            let (l, c, clauses) = LEADING_WRITES[r.usize_below(LEADING_WRITES.len())];
             let mut cl: Vec<String> = clauses.iter().map(|s| s.to_string()).collect();
-            let ret = RETURNS[r.usize_below(RETURNS.len())];
-            if !ret.is_empty() {
-                cl.push(ret.to_string());
+            let mut wclass = c.to_string();
+            if r.chance(2, 5) {
+                wclass = push_pipeline_tail(r, &mut cl, c, true);
+            } else {
+                let ret = RETURNS[r.usize_below(RETURNS.len())];
+                if !ret.is_empty() {
+                    cl.push(ret.to_string());
+                }
             }
-            (c.to_string(), c.to_string(), cl)
+            (l.to_string(), wclass, cl)
         }
         _ => {
             let (l, w, t) = SPECIAL[r.usize_below(SPECIAL.len())];
+            if l == "explain" {
+                diag = 0; // already prefixed
+            }
             (l.to_string(), w.to_string(), vec![t.to_string()])
         }
     };
-    json!({"op":"probe","clauses":clauses,"sep":sep,"case":case_mode,"lead_trivia":lead,"tail_trivia":tail,"lead":lclass,"write":wclass})
+    json!({"op":"probe","clauses":clauses,"diag":diag,"sep":sep,"case":case_mode,"lead_trivia":lead,"tail_trivia":tail,"lead":lclass,"write":wclass})
+}
+
+fn diag_of(ev: &Value) -> &'static str {
+    DIAG[(u(ev, "diag") as usize) % DIAG.len()]
 }
 
 fn probe_text(ev: &Value) -> String {
-    let clauses: Vec<String> = ev["clauses"].as_array().map(|a| a.iter().map(|c| c.as_str().unwrap_or("").to_string()).collect()).unwrap_or_default();
+    let mut clauses: Vec<String> = ev["clauses"].as_array().map(|a| a.iter().map(|c| c.as_str().unwrap_or("").to_string()).collect()).unwrap_or_default();
     let sep = SEPS[(u(ev, "sep") as usize) % SEPS.len()];
     let lead = LEAD_TRIVIA[(u(ev, "lead_trivia") as usize) % LEAD_TRIVIA.len()];
     let tail = TAIL_TRIVIA[(u(ev, "tail_trivia") as usize) % TAIL_TRIVIA.len()];
+    if !diag_of(ev).is_empty() {
+        // the prefix is one more keyword: same separator, same case style as the rest
+        clauses.insert(0, diag_of(ev).to_string());
+    }
     format!("{lead}{}{tail}", recase(&clauses.join(sep), u(ev, "case") % 4))
 }
 
@@ -351,6 +454,16 @@ fn class_of(a: &Out, eng: &Out) -> Option<&'static str> {
     }
 }
 
+/// `PROFILE <read>` answers one `plan` cell per branch whose text contains measured wall-clock
+/// times: not comparable between twins (and not reproducible), so only columns and row
+/// count are kept.  EXPLAIN output (no timings) is compared verbatim.
+fn mask_profile_report(out: Out, profiled: bool) -> Out {
+    match out {
+        Out::Rows { columns, rows } if profiled && columns.len() == 1 && columns[0] == "plan" => Out::Rows { columns, rows: rows.iter().map(|_| "<profile report>".to_string()).collect() },
+        other => other,
+    }
+}
+
 impl Scenario for C23 {
     fn id(&self) -> &'static str {
         "C23"
@@ -362,7 +475,7 @@ impl Scenario for C23 {
         }
     }
     fn rule(&self) -> &'static str {
-        "a run = 1-6 probe statements; a probe is (a) one of 15 read prefixes (MATCH, OPTIONAL MATCH, MATCH..WITH, UNWIND, WITH, CALL..YIELD, RETURN..UNION ALL, none) + one of 24 write/DDL clauses (3/4) or a read tail (1/4) + optional RETURN, (b) a DDL statement alone, (c) a statement whose first clause writes (CREATE.., CREATE..WITH..MATCH..CREATE, MERGE.. ON CREATE/ON MATCH), or (d) one of 15 special statements (write keyword inside a string literal, UNION, SHOW, EXPLAIN, SKIP/LIMIT); clauses joined by one of 7 separators (space, newline, tab, double space, block comment, line comment, CRLF), keywords in one of 4 case styles, with leading trivia (none, space, newline, tab, line comment, block comment, CRLF) and trailing trivia (none, ';', space, newline, line comment). Each probe runs on three fresh twins built from the same 4-statement setup. Non-trivial = the run has a write probe whose leading clause is not CREATE/MERGE or whose text has non-plain case/separator/trivia. Distinct = hash of the probe texts."
+        "a run = 1-6 probe statements; a probe is (a) one of 15 read prefixes (MATCH, OPTIONAL MATCH, MATCH..WITH, UNWIND, WITH, CALL..YIELD, RETURN..UNION ALL, none) + one of 24 write/DDL clauses (3/4) or a read tail (1/4) + optional RETURN, (b) a DDL statement alone, (c) a statement whose first clause writes (CREATE.., CREATE..WITH..MATCH..CREATE, MERGE.. ON CREATE/ON MATCH, UNWIND..CREATE/MERGE), or (d) one of 15 special statements (write keyword inside a string literal, UNION, SHOW, EXPLAIN, SKIP/LIMIT); in 2/5 of the (a)/(c) write statements the write clause is continued as a clause pipeline: WITH (6 forms, carrying n or dropping it) + a read tail (RETURN forms, MATCH/OPTIONAL MATCH/UNWIND..RETURN: every write precedes the last WITH), or + a second write clause [+ RETURN] (writes on both sides of the WITH), or + a second write + WITH + read tail; 3/10 of all probes carry an EXPLAIN (1/10) or PROFILE (2/10) prefix; clauses (and the prefix) joined by one of 7 separators (space, newline, tab, double space, block comment, line comment, CRLF), keywords in one of 4 case styles, with leading trivia (none, space, newline, tab, line comment, block comment, CRLF) and trailing trivia (none, ';', space, newline, line comment). Each probe runs on three fresh twins built from the same 4-statement setup. Non-trivial = the run has a write probe whose leading clause is not CREATE/MERGE or whose text has non-plain case/separator/trivia/prefix. Distinct = hash of the probe texts."
     }
     fn real_components(&self) -> Vec<&'static str> {
         vec![
@@ -380,12 +493,28 @@ impl Scenario for C23 {
             "'the engine can execute it' = parse_query + QueryPlanner::plan succeed and the executor chosen by the plan's is_write flag returns rows",
             "cells are compared by value for integers, strings, booleans and null (the three renderings are lossless for these), by kind for nodes / relationships / paths; floats, lists and maps are not generated in RETURN items",
             "row order is not compared (bag), error texts are not compared",
+            "the report of PROFILE <read statement> contains measured times: only its columns and row count are compared; EXPLAIN output is compared verbatim",
             "write procedures (algo.or.solve) are excluded: the solver is randomised, so twins legitimately differ",
             "no property index exists in the setup history: the ephemeral server of main.rs never runs the indexer, which is outside this property",
         ]
     }
     fn required_probes(&self, _tier: Tier) -> Vec<&'static str> {
-        vec!["engine_ran_write", "engine_ran_read", "engine_refused", "resp_took_write_lock", "http_took_write_lock", "resp_routed_read", "http_routed_read", "all_three_agree_on_write"]
+        vec![
+            "engine_ran_write",
+            "engine_ran_read",
+            "engine_refused",
+            "resp_took_write_lock",
+            "http_took_write_lock",
+            "resp_routed_read",
+            "http_routed_read",
+            "all_three_agree_on_write",
+            "pipeline_write_before_last_with_ran",
+            "pipeline_write_after_with_ran",
+            "profile_write_ran",
+            "profile_read_ran",
+            "explain_of_write_changed_nothing",
+            "explain_of_read",
+        ]
     }
     fn generate(&self, s: &mut Streams, _run_index: u64, _tier: Tier) -> Case {
         let mut case = Case::new("C23");
@@ -398,7 +527,7 @@ impl Scenario for C23 {
     fn shrink_event(&self, ev: &Value) -> Vec<Value> {
         let mut out = Vec::new();
         if op(ev) == "probe" {
-            for k in ["lead_trivia", "tail_trivia", "sep", "case"] {
+            for k in ["lead_trivia", "tail_trivia", "sep", "case", "diag"] {
                 if u(ev, k) != 0 {
                     let mut e = ev.clone();
                     e[k] = json!(0);
@@ -412,12 +541,22 @@ impl Scenario for C23 {
         let mut o = Outcome::new();
         let mut keys: Vec<String> = Vec::new();
         let mut hash_parts: Vec<String> = Vec::new();
+        // what the set-up history alone leaves behind (the same for every probe of every run)
+        let base_obs = {
+            let s0 = setup_server();
+            let obs = s0.with_store(observe);
+            let _ = s0.shutdown();
+            obs
+        };
         for (step, ev) in case.events.iter().enumerate() {
             if op(ev) != "probe" {
                 continue;
             }
             let q = probe_text(ev);
-            let lead = s(ev, "lead").to_string();
+            let diag = diag_of(ev);
+            let profiled = diag == "PROFILE";
+            let explained = diag == "EXPLAIN" || s(ev, "lead") == "explain";
+            let lead = if diag.is_empty() { s(ev, "lead").to_string() } else { format!("{}_{}", diag.to_ascii_lowercase(), s(ev, "lead")) };
             let wclass = s(ev, "write").to_string();
             let trivia = trivia_class(ev).to_string();
             keys.push(q.clone());
@@ -444,18 +583,31 @@ impl Scenario for C23 {
                     Ok(true) => (engine_out(engine.execute_mut(&q, &mut g, "default").map_err(|e| e.to_string())), true),
                     Ok(false) => (engine_out(engine.execute(&q, &g).map_err(|e| e.to_string())), false),
                 };
-                (out, w, observe(&g))
+                (mask_profile_report(out, profiled), w, observe(&g))
             };
             match (&eng_out, eng_write) {
                 (Out::Refused(_), _) => o.probe("engine_refused"),
                 (_, true) => o.probe("engine_ran_write"),
                 (_, false) => o.probe("engine_ran_read"),
             }
-            let base_obs = {
-                let s0 = setup_server();
-                let g = crate::kit::exec::block_on(s0.store.read());
-                observe(&g)
-            };
+            if matches!(eng_out, Out::Rows { .. }) {
+                let changed = eng_obs != base_obs;
+                if eng_write && !explained && wclass.ends_with("_with_read") {
+                    o.probe("pipeline_write_before_last_with_ran");
+                } else if eng_write && !explained && wclass.contains("_with_") {
+                    o.probe("pipeline_write_after_with_ran");
+                }
+                if profiled && eng_write && changed {
+                    o.probe("profile_write_ran");
+                } else if profiled && !eng_write {
+                    o.probe("profile_read_ran");
+                }
+                if explained && wclass != "read" && !changed {
+                    o.probe("explain_of_write_changed_nothing");
+                } else if explained && wclass == "read" {
+                    o.probe("explain_of_read");
+                }
+            }
             // ---- twin 1: RESP, twin 2: HTTP
             let mut agree = true;
             for front in ["resp", "http"] {
@@ -467,7 +619,7 @@ impl Scenario for C23 {
                         RespValue::BulkString(Some(q.as_bytes().to_vec())),
                     ]);
                     let (reply, w) = drive(&srv.store, srv.handler.handle_command(&cmd, &srv.store));
-                    (resp_out(&reply), w)
+                    (mask_profile_report(resp_out(&reply), profiled), w)
                 } else {
                     use axum::body::Body;
                     use http_body_util::BodyExt;
@@ -480,7 +632,7 @@ impl Scenario for C23 {
                         let bytes = resp.into_body().collect().await.expect("body").to_bytes();
                         (status, serde_json::from_slice::<Value>(&bytes).unwrap_or(Value::Null))
                     });
-                    (http_out(status, &body), w)
+                    (mask_profile_report(http_out(status, &body), profiled), w)
                 };
                 o.probe(&format!("{front}_{}", if took_write { "took_write_lock" } else { "routed_read" }));
                 let obs = srv.with_store(observe);
